@@ -545,6 +545,14 @@ impl Scenario for Incent {
             query(&app, &inc_factory, &incentive_factory::QueryMsg::Incentive { lp_asset: assets[A_LP].clone() }).expect("harness: incentive address");
         let incentive = inc.expect("harness: incentive registered").to_string();
 
+        // native look-alikes of the cw20 assets: coins whose denom is the token contract's address
+        for a in &assets {
+            if let AssetInfo::Token { contract_addr } = a {
+                for who in &actors {
+                    let _ = app.sudo(cw_multi_test::SudoMsg::Bank(cw_multi_test::BankSudo::Mint { to_address: who.to_string(), amount: vec![cosmwasm_std::coin(1_000_000_000_000, contract_addr.as_str())] }));
+                }
+            }
+        }
         let mut accts: Vec<String> = actors.iter().map(|a| a.to_string()).collect();
         accts.push(COLLECTOR.to_string());
         accts.push(incentive.clone());
